@@ -653,3 +653,22 @@ impl<K: Copy + Ord + Default, V: Clone + Default> MapTree<K, V> {
         }
     }
 }
+
+#[cfg(itree_verif)]
+impl<K: Copy + Ord + Default, V: Clone + Default> MapTree<K, V> {
+    /// Read-only copy of the arena (verification hook).
+    pub fn verif_snapshot(&self) -> crate::verif::ArenaSnap<(K, V)> {
+        crate::verif::ArenaSnap {
+            root: self.root,
+            slots: self.store.buffer.iter().map(|n| crate::verif::SlotSnap {
+                parent: n.parent,
+                left: n.left,
+                right: n.right,
+                black: n.color == Color::Black,
+                payload: (n.entity.key, n.entity.val.clone()),
+            }).collect(),
+            unused: self.store.unused.clone(),
+            unused_capacity: self.store.unused.capacity(),
+        }
+    }
+}
